@@ -100,6 +100,14 @@ KANI_UNITS["ov_sink"] = {
     "bounded": {r"_loop$": "internal loop unwound: <= 3 buffered / iterator items"},
 }
 
+KANI_UNITS["vk_mpsc"] = {
+    "mode": "dep", "crate": "contracts/kani/vk_mpsc", "props": ["C16"],
+    "gen": [("src/mpsc.rs.in", "src/mpsc.rs")],
+    "what": "dfir_rs/src/util/unsync/mpsc.rs extracted verbatim (whole file); per-call contracts and bounded histories with counting wakers",
+    "instantiation": "u8 items, capacity <= 2, <= 2 sender tasks",
+    "bounded": {r".*": "capacity <= 2, queue length <= 2, histories of <= 8 calls"},
+}
+
 # property -> list of (engine, unit, harness filters or None, tiers)
 PROPS = {
     "C01": [("verus", "lat_ord"), ("verus", "lat_wrap"), ("verus", "lat_pair"), ("verus", "lat_dom"),
@@ -124,6 +132,9 @@ PROPS["C11"] = [("kani", "ov_pipes", ["pull::"], ("quick", "thorough"))]
 PROPS["C12"] = [("kani", "ov_pipes", ["push::", "pull::send_push", "pull::send_sink"], ("quick", "thorough"))]
 
 PROPS["C14"] = [("kani", "ov_sink", ["vk_harness"], ("quick", "thorough"))]
+
+# C16 is NOT registered: the vk_mpsc harness crate (kept for reference) exhausts memory -- a single `try_send` call on the verbatim
+# file (Rc<RefCell<Shared>>, VecDeque, SmallVec<[Waker;1]>, tokio error types) drives CBMC to 65 GB RSS in propositional reduction.
 
 LEVEL = {
     "C01": "other", "C02": "other", "C03": "other", "C04": "other", "C09": "other", "C15": "other", "C11": "other", "C12": "other", "C14": "other",
